@@ -74,7 +74,7 @@ _PER_PROP["C01"]["quick"] = _PER_PROP["C01"]["quick"] + [
        for ct in ("h11", "h2", "h2prior", "h1-on-h2-pool", "socks-on-h2-pool") for n in (1, 2) for lay in (2, 3, 4)
        for mode in ("cancel == 0", "cancel > 0 and d0 == 0 and c0 == 0")],
     example=dict(lay=2, d0=3, c0=1, d1=0, c1=0, beh=0, pto=0, cancel=0, who=0),
-    require=("all-served", "waited", "waiter-sampled-at-rest"),
+    require=("all-served", "waited", "C07:waiter-sampled-at-rest"),
     timeout={"quick": 300, "thorough": 1500},
     symbolic="caller layout (2-3 callers over 1-2 origins); up to P deviations from the FIFO schedule (decision index, choice); caller behaviour (read the body / abandon it); whether the last caller has a pool timeout; cancellation of one caller (which one is symbolic) at a scheduler step (0 = none)",
     bounds="<= 3 callers, <= 2 origins, max_connections N in {1,2}, P <= 1 (quick) / 2 (thorough) deviations among the first 40 scheduling decisions, HTTP/1.1, HTTP/2, HTTP/1.1 server behind an http2-enabled pool (the 'turned out to be HTTP/1.1' re-queue), tunnel proxy; 'slow' shards: servers answer after 3 time units and the waiting requests are examined whenever every task is blocked",
